@@ -360,9 +360,10 @@ _PJ = "ecdsa.ellipticcurve.PointJacobi."
 _MULS = [_PJ + f for f in ("_naf", "_maybe_precompute", "_mul_precompute", "__mul__", "__rmul__", "mul_add")]
 PROPS["C07"] = dict(
     level="other",
-    functions=_MULS + [_PJ + "_add", _PJ + "_double", _PJ + "scale", _PJ + "x", _PJ + "y", _PJ + "double", _PJ + "__add__", _PJ + "from_affine"],
+    functions=_MULS + ["ecdsa.ellipticcurve.Point.__mul__"] + [_PJ + "_add", _PJ + "_double", _PJ + "scale", _PJ + "x", _PJ + "y", _PJ + "double", _PJ + "__add__", _PJ + "from_affine"] +
+    ["ecdsa.ellipticcurve.Point." + f for f in ("__add__", "double", "__neg__", "__eq__")],
     lemmas=[],
-    bounded=[dict(function=_PJ + "__mul__", label="k*P, P*k, mul_add and legacy Point.__mul__ against the k-fold sum", role="bounded stand-in for legacy Point.__mul__; CPython cross-check of the group-level contracts",
+    bounded=[dict(function=_PJ + "__mul__", label="k*P, P*k, mul_add and legacy Point.__mul__ against the k-fold sum", role="CPython cross-check of the group-level contracts (PointJacobi and legacy Point)",
                   bound="toy curves of prime order over F_p, p <= 13 (quick) / 31 (thorough): every k in [-3, 2n+3] (legacy Point: [-2n-3, 5n+3]) x points x {order, no order, generator table, scaled representation}, results compared as raw canonical coordinates; mul_add for a in [-2, n+2] x 8 structured b x Q in {O, P, -P, others}; structured scalars (0, 1, n-1, n, n+1, m*n-1 and m*n+1 for m <= 5, negative, 5n+7, 2^300+1, alternating-bit scalars (2^b-1)/3, 2^47-1, 2^64+1) on NIST256p, secp256k1, brainpoolP160r1",
                   run=_c07_b)],
     min_obligations=60,
@@ -370,9 +371,9 @@ PROPS["C07"] = dict(
                   "no point of order 2 takes part (finding F6), i.e. the odd prime group order of the property's hypothesis; (X, -Y, Z) denotes the inverse of (X, Y, Z)",
                   "the declared order annihilates every point taking part (hypothesis of the property): c*P = k*P whenever c == k (mod order); the congruence itself is decided by polynomial normal form (sympy) after opening `x mod (t*order)`",
                   "signed-digit recoding is specified by REM(m, 0) = m, REM(m, i+1) = (REM(m, i) - dig(REM(m, i))) / 2 (definitions instantiated as ground facts); lemma `REM(m, i) = 0 => REM(m, j) = 0 for j >= i` by induction (checked on the concrete definition for |m| <= 40)",
-                  "legacy Point.__mul__: bounded stand-in only; where mul_add meets it (affine operand, zero multiplier) its contract is assumed",
+                  "legacy Point.__mul__ (X9.62 D.3.2 signed ladder over the bits of 3k and k, with its nested leftmost_bit loop) is verified at the same group level from the C06 contracts of the legacy Point.__add__ / double / __neg__ / __eq__; the shift and power-of-two facts it needs (x >> m == x div 2^m, x >> (m+1) == (x >> m) div 2, 2^(m+1) == 2 * 2^m) are instantiated as ground facts",
                   "z3 integers are mathematical: Python ints are unbounded, so this is exact"],
-    explanation="scalar multiplication verified over the free abelian group on the base points: _naf returns the non-adjacent form (loop invariant over the digit list), _maybe_precompute builds the table of 2^j P long enough for scalars below 2*order (quantified loop invariant), _mul_precompute and the NAF loop of __mul__ keep `accumulator = processed digits times P` (nonlinear invariant other*2^j <= ... for the table walk), mul_add keeps `accumulator = REM(a)P + REM(b)Q` over the padded digit lists for every operand kind (Jacobian, affine, INFINITY, the same object) and every early exit; the result object denotes c*P + d*Q with c, d congruent to the multipliers modulo the declared order",
+    explanation="scalar multiplication verified over the free abelian group on the base points: _naf returns the non-adjacent form (loop invariant over the digit list), _maybe_precompute builds the table of 2^j P long enough for scalars below 2*order (quantified loop invariant), _mul_precompute and the NAF loop of __mul__ keep `accumulator = processed digits times P` (nonlinear invariant other*2^j <= ... for the table walk), mul_add keeps `accumulator = REM(a)P + REM(b)Q` over the padded digit lists for every operand kind (Jacobian, affine, INFINITY, the same object) and every early exit; the legacy Point.__mul__ ladder keeps `result = ((3k >> (m+1)) - (k >> (m+1))) P`; the result object denotes c*P + d*Q with c, d congruent to the multipliers modulo the declared order",
 )
 
 _CONC_Q = ["ecdsa.ellipticcurve.PointJacobi." + f + "@concurrent" for f in ("x", "y", "scale", "to_affine", "double", "__add__", "__neg__", "__eq__", "__getstate__",
